@@ -1,7 +1,7 @@
 (* Witnesses for the three defects of C09 that were repaired in /repo (F10, F11, F12): on each witness the model of
    the code BEFORE the repair panics or allocates without bound, the model of the repaired code returns an error.
    Not imported by Props/. *)
-From TV Require Import Model.Container Model.Glyf Model.CmapBuild Spec.Container.
+From TV Require Import Model.Container Model.Glyf Model.CmapBuild Spec.Container Model.TableIndex Model.AatLookup.
 
 (* F10: a 28-byte sfnt whose only table claims 0xF0000000 bytes *)
 Definition f10_file : list Z :=
@@ -38,4 +38,19 @@ Proof. split; vm_compute; reflexivity. Qed.
 Lemma cmap4_empty_indexes_before_fix :
   new_cmap4_unfixed [64; 65535] [65; 65535] [0; 1] [4; 0] [0; 7] = Ok [mkEntry16 64 65 0 (Some []); mkEntry16 65535 65535 1 None]
   /\ new_cmap4 [64; 65535] [65; 65535] [0; 1] [4; 0] [0; 7] = Err e_cmap4.
+Proof. split; vm_compute; reflexivity. Qed.
+
+(* 814b335 (Hmtx.Advance with no long metric): before the repair, a table with side bearings only indexed Metrics[-1];
+   365cf88 (cmap6or10.Lookup): before the repair the index was computed in int32, so that a format 10 start code above
+   0x7FFFFFFF (negative rune) made r - firstCode wrap to a negative index *)
+Lemma hmtx_advance_panics_before_fix :
+  hmtx_advance_unfixed (mkHmtx [] [7]) 0 = Panic p_index /\ hmtx_advance (mkHmtx [] [7]) 0 = Ok 0.
+Proof. split; vm_compute; reflexivity. Qed.
+Lemma lookup610_panics_before_fix :
+  lookup610_unfixed (mkCmap610 (-16) [7]) 2147483632 = Panic p_index /\ lookup610 (mkCmap610 (-16) [7]) 2147483632 = Ok None.
+Proof. split; vm_compute; reflexivity. Qed.
+
+(* 5034881 (AAT lookup format 4): a segment whose values offset is null has no values; before the repair Class indexed them *)
+Lemma aat_class4_panics_before_fix :
+  class4_unfixed [mkSeg4 5 3 []] 4 = Panic p_index /\ class4 [mkSeg4 5 3 []] 4 = Ok None.
 Proof. split; vm_compute; reflexivity. Qed.
